@@ -1068,6 +1068,7 @@ def extract(ctx=None):
         stats["scenarios"] += 1
         for c3 in candidates_of(g, x, y):
             cands.append((name,) + c3)
+        stats.setdefault("doc_pairs", []).append((name, len(sharing(g, x, y)[3])))  # shared mutable objects of the two documents
     return graphs, sorted(set(cands)), sorted(nav), stats
 
 
@@ -1095,6 +1096,8 @@ def regenerate(ctx):
     text += f"def candidates : List (String × Rule) := {lean_list((f'({lean_str(c[0])}, {lean_rule(c[1:])})' for c in cands), 1)}\n\n"
     text += f"def navUsed : List (String × String) := {lean_list((lean_rule(n) for n in nav), 4)}\n\n"
     text += f"def scenarioCount : Nat := {stats['scenarios']}\n\n"
+    text += "/-- document pairs: (scenario, number of mutable objects reachable from BOTH documents) -/\n"
+    text += f"def docPairs : List (String × Nat) := {lean_list((f'({lean_str(n)}, {k})' for n, k in stats.get('doc_pairs', [])), 2)}\n\n"
     from ezdxf.entities import factory
     rows, opaque = [], []
     for cls in sorted(set(factory.ENTITY_CLASSES.values()), key=lambda c: c.__name__):
@@ -1812,6 +1815,9 @@ OPEN = [
     "to the code by a syntactic effect scan of the flow functions (flow_effects_allowed: a classification of statements by whether they concern a "
     "product, not a translation; the render modules that build new primitives are not scanned), the extracted scenario graphs (candidates_frozen) "
     "and the oracle",
+    "interleaved_flows (two collections, each producing copies into itself and writing, any interleaving) is proved step by step (every step leaves the "
+    "other collection's observation unchanged); the solo-equivalence of interleaved_solo is proved for plain writes, not for produce steps",
+    "documents_separated is a regenerated table fact (no mutable object reachable from both documents of any extracted pair; reachability by the extractor)",
     "interleaved_frame / interleaved_solo are about the heap model (writes through owning paths); that the operations of the document API are such "
     "writes through the document they are called on is tied by X1 (raw writes) and by oracle O5 (100 interleaved histories against solo runs per quick run)",
     "globals_guarded is a write-barrier probe by content over a fixed battery of operations (copies by all routes, virtual entities, new / readfile / "
